@@ -92,20 +92,21 @@ theorem inject_is_spoofed_data (st : State) (fromClient : Bool) (d : Bytes) :
     sending direction while the other peer can still be read, the layer yields exactly one command, the half-close
     of the other connection; it keeps relaying, the other side stays readable and `s` stays writable, and the next
     data from the other side is still delivered to `s` (through the message hook when there is a flow). -/
-theorem half_close_propagated_while_other_direction_flows (f c : Bool) (ins : List Input) (s : Side) :
+theorem half_close_propagated_while_other_direction_flows (f c : Bool) (ins : List Input) (s : Side)
+    (hph : (run (init .tcp f c) ins).phase = .relay) (hp : (run (init .tcp f c) ins).pending = .none)
+    (hr : ((run (init .tcp f c) ins).conn s.other).canRead = true) :
     let st := run (init .tcp f c) ins
-    st.phase = .relay → st.pending = .none → (st.conn s.other).canRead = true →
     let st1 := step st (.closed s false)
     st1.trace = st.trace ++ [.close s.other true] ∧ st1.phase = .relay ∧ st1.pending = .none ∧
     (st1.conn s.other).canRead = true ∧ (st1.conn s).canWrite = (st.conn s).canWrite ∧
     ∀ d e, (step (step st1 (.data s.other d)) (.hookDone e)).trace =
       st1.trace ++ (if f then [.hook (.message (s.other == .client) d), .send s (e.getD d)] else [.send s d]) := by
-  intro st hph hp hr st1
   have hF := reach .tcp f c ins
-  have hf : st.flow = f := reach_flow .tcp f c ins
-  have hpr : st.proto = .tcp := reach_proto .tcp f c ins
+  have hf := reach_flow .tcp f c ins
+  have hpr := reach_proto .tcp f c ins
+  generalize run (init .tcp f c) ins = st at *
+  intro st0 st1
   have hq : st.queue = [] := hF.2.2 hp
-  have hne : st.phase ≠ .idle := by rw [hph]; decide
   have step_closed : ∀ (t : State), t.phase = .relay → t.pending = .none → t.proto = .tcp →
       (t.conn s.other).canRead = true →
       step t (.closed s false) = emit (t.setConn s { t.conn s with canRead := false }) (.close s.other true) := by
@@ -120,9 +121,9 @@ theorem half_close_propagated_while_other_direction_flows (f c : Bool) (ins : Li
   have hs1 : st1.phase = .relay ∧ st1.pending = .none ∧ st1.queue = [] ∧ st1.flow = f := by
     rw [e1]; cases s <;> simp_all [State.setConn]
   refine ⟨?_, hs1.1, hs1.2.1, ?_, ?_, ?_⟩
-  · rw [e1]; cases s <;> simp [State.setConn]
+  · rw [e1]; cases s <;> simp [State.setConn, st0]
   · rw [e1]; cases s <;> simp_all [State.setConn, State.conn, Side.other, emit, applyClose]
-  · rw [e1]; cases s <;> simp_all [State.setConn, State.conn, Side.other, emit, applyClose]
+  · rw [e1]; cases s <;> simp_all [State.setConn, State.conn, Side.other, emit, applyClose, st0]
   · intro d e
     obtain ⟨a, b, c', d'⟩ := hs1
     have hd : step st1 (.data s.other d) = handleData st1 s.other d := by
@@ -146,25 +147,26 @@ theorem half_close_propagated_while_other_direction_flows (f c : Bool) (ins : Li
 
 /-- **No full close while relaying.**  As long as the layer has not entered `done`, it has never yielded a
     full `CloseConnection` — the only close commands of a running relay are half-closes. -/
-theorem full_close_only_when_ending (p : Proto) (f c : Bool) (ins : List Input) (s : Side) :
-    let st := run (init p f c) ins
-    st.phase ≠ .done → Output.close s false ∉ st.trace := by
-  intro st hph hmem
+theorem full_close_only_when_ending (p : Proto) (f c : Bool) (ins : List Input) (s : Side)
+    (hph : (run (init p f c) ins).phase ≠ .done) : Output.close s false ∉ (run (init p f c) ins).trace := by
+  intro hmem
   have hI := (reach p f c ins).1
   unfold TrInv at hI
+  obtain ⟨-, -, -, -, -, -, -, -, -, -, -, h12, -⟩ := hI
   apply hph
-  apply hI.2.2.2.2.2.2.2.2.2.2.2.2.1
+  apply h12
   simp only [hasFull, List.any_eq_true]
   exact ⟨_, hmem, rfl⟩
 
 /-- a TCP relay only ends (enters `done`) after a failed connect or once neither side can be read any more -/
-theorem tcp_ends_only_when_both_directions_closed (f c : Bool) (ins : List Input) :
-    let st := run (init .tcp f c) ins
-    st.phase = .done → st.connected = false ∨ (st.client.canRead = false ∧ st.server.canRead = false) := by
-  intro st hph
+theorem tcp_ends_only_when_both_directions_closed (f c : Bool) (ins : List Input)
+    (hph : (run (init .tcp f c) ins).phase = .done) :
+    (run (init .tcp f c) ins).connected = false ∨
+      ((run (init .tcp f c) ins).client.canRead = false ∧ (run (init .tcp f c) ins).server.canRead = false) := by
   have hI := (reach .tcp f c ins).1
   unfold TrInv at hI
-  exact hI.2.2.2.2.2.2.2.2.2.2.2.2.2 (reach_proto .tcp f c ins) hph
+  obtain ⟨-, -, -, -, -, -, -, -, -, -, -, -, h13⟩ := hI
+  exact h13 (reach_proto .tcp f c ins) hph
 
 /-- **At most one** end-or-error hook, for every schedule. -/
 theorem at_most_one_end_or_error (p : Proto) (f c : Bool) (ins : List Input) :
@@ -175,24 +177,22 @@ theorem at_most_one_end_or_error (p : Proto) (f c : Bool) (ins : List Input) :
   unfold cnt at this
   rw [this]; split <;> omega
 
-/-- **Exactly one** once the flow is over: the layer was started, is not waiting for a reply, and
-    (TCP) neither side can be read any more / (UDP) one side has closed.  Holds for every schedule. -/
-theorem exactly_one_end_or_error (p : Proto) (c : Bool) (ins : List Input) :
-    let st := run (init p true c) ins
-    st.phase ≠ .idle → st.pending = .none →
-    (match p with
-     | .tcp => st.client.canRead = false ∧ st.server.canRead = false
-     | .udp => st.client.canRead = false ∨ st.server.canRead = false) →
+/-- the peers are finished: (TCP) neither side can be read any more / (UDP) one side has closed -/
+def peersFinished (st : State) : Prop :=
+  match st.proto with
+  | .tcp => st.client.canRead = false ∧ st.server.canRead = false
+  | .udp => st.client.canRead = false ∨ st.server.canRead = false
+
+private theorem exactly_one_of_full (st : State) (h : Full st) (hf : st.flow = true)
+    (hidle : st.phase ≠ .idle) (hp : st.pending = .none) (hclosed : peersFinished st) :
     st.trace.countP isEndOrError = 1 := by
-  intro st hidle hp hclosed
-  obtain ⟨hI, hK, hQ⟩ := reach p true c ins
-  have hf : st.flow = true := reach_flow p true c ins
-  have hpr : st.proto = p := reach_proto p true c ins
+  unfold peersFinished at hclosed
+  obtain ⟨hI, hK, hQ⟩ := h
   have hq : st.queue = [] := hQ hp
   unfold TrInv at hI
   unfold KInv at hK
-  have hcnt := hI.2.2.1
-  have hstart := hI.2.2.2.2.2.2.2.2.1
+  obtain ⟨-, -, hcnt, -, -, -, -, -, hstart, -, -, -, -⟩ := hI
+  obtain ⟨-, -, -, k3, k4⟩ := hK
   have hdone : st.phase = .done := by
     cases hph : st.phase with
     | idle => exact absurd hph hidle
@@ -200,21 +200,28 @@ theorem exactly_one_end_or_error (p : Proto) (c : Bool) (ins : List Input) :
     | done => rfl
     | relay =>
       exfalso
-      cases p with
+      cases hpr : st.proto with
       | tcp =>
-        have := hK.2.2.2.1 hph hpr
-        simp [hq] at this
-        rcases this with a | a
-        · simp [hclosed.1] at a
-        · simp [hclosed.2] at a
+        rw [hpr] at hclosed
+        have := k3 hph hpr
+        simp [hq, hclosed.1, hclosed.2] at this
       | udp =>
-        have := hK.2.2.2.2 hph hpr
+        rw [hpr] at hclosed
+        have := k4 hph hpr
         simp [hq] at this
         rcases hclosed with a | a
         · simp [a] at this
         · simp [a] at this
   unfold cnt at hcnt
-  rw [hcnt]; simp [hf, hdone]
+  rw [hcnt, if_pos ⟨hf, Or.inl hdone⟩]
+
+/-- **Exactly one** once the flow is over: the layer was started, is not waiting for a reply, and
+    (TCP) neither side can be read any more / (UDP) one side has closed.  Holds for every schedule. -/
+theorem exactly_one_end_or_error (p : Proto) (c : Bool) (ins : List Input)
+    (hidle : (run (init p true c) ins).phase ≠ .idle) (hp : (run (init p true c) ins).pending = .none)
+    (hclosed : peersFinished (run (init p true c) ins)) :
+    (run (init p true c) ins).trace.countP isEndOrError = 1 :=
+  exactly_one_of_full _ (reach p true c ins) (reach_flow p true c ins) hidle hp hclosed
 
 /-- a refused/failed `OpenConnection` makes the layer fire the error hook (and nothing else) at once -/
 theorem connect_failure_fires_error (st : State) (hph : st.phase ≠ .idle) (hp : st.pending = .connect)
@@ -273,8 +280,10 @@ example : let st := run (init .tcp true true) [.start, .hookDone none]
 
 /-- hypotheses of `exactly_one_end_or_error` hold (TCP, both sides closed, end hook completed) -/
 example : let st := run (init .tcp true true) [.start, .hookDone none, .closed .client false, .closed .server false, .hookDone none]
-    st.phase ≠ .idle ∧ st.pending = .none ∧ st.client.canRead = false ∧ st.server.canRead = false ∧
-    st.trace.countP isEndOrError = 1 := by decide
+    st.phase ≠ .idle ∧ st.pending = .none ∧ peersFinished st ∧ st.trace.countP isEndOrError = 1 := by
+  refine ⟨by decide, by decide, ?_, by decide⟩
+  show (_ ∧ _)
+  exact ⟨by decide, by decide⟩
 
 /-- connect failure: error hook, then the client is closed; data buffered meanwhile is dropped -/
 example : (run (init .udp true false) [.start, .hookDone none, .data .client [1], .connectDone true, .hookDone none]).trace =
